@@ -96,7 +96,13 @@ def check_loops(p, report, funcs, facts, rule21="R2.1", rule22="R2.2", only=None
                 # step's selection nor leaves the winner a number in its own row
                 other_excl = any(b_ == T and st_ is not m and dominates(tree, st_, s_stmt)
                                  for (st_, b_, k_) in c01.exclusion_statements(L, pick_names))
-                okm = before_sel or not in_ret or other_excl
+                # ... or the masked array comes out of a helper that received the picks and excluded them itself
+                via_helper = any(isinstance(a_, ast.Assign) and isinstance(a_.value, ast.Call)
+                                 and any(base_name(t_) == T for t_ in a_.targets)
+                                 and dominates(tree, a_, s_stmt)
+                                 and c01.callee_exclusions(p, f, a_.value, pick_names)
+                                 for a_ in ast.walk(L))
+                okm = before_sel or not in_ret or other_excl or via_helper
                 report.add(rule21, ent, f"{loop_id}: mask `{norm_stmt(m, 70)}` of earlier picks", f"{f.file}:{m.lineno}", okm,
                            detail="indexed by the accumulator before it is updated with the current pick; precedes the selection"
                            if okm else
